@@ -643,6 +643,10 @@ pub fn gen_factor_file(rng: &mut Rng, carriers: &[String], hostile: bool, comple
         if rng.chance(0.2) {
             rows.push(String::new());
         }
+        // the same factor defined again further down with other values (the first definition is the one in force)
+        if rng.chance(0.06) {
+            rows.push(format!("{}, RED, SUMINISTRO, A, {} # definición repetida", c, fmt(gen_factor_triplet(rng))));
+        }
     }
     rows.join("\n") + "\n"
 }
